@@ -1,9 +1,20 @@
 (* Property C06 - command ring: each written command is read exactly once, intact, in order.
    Statements only; proofs are in Proofs/RingSeq.v, RingRender.v, RingSeqRun.v, C06OracleProofs.v
    (sequential part) and Proofs/RingConc*.v (interleavings). *)
-Require Import V.Base.MachineInt V.Generated.GenConsts V.Model.LogBase V.Model.Ring V.Spec.Fifo
-               V.Oracle.C06Oracle V.Proofs.RingArith V.Proofs.RingSeq V.Proofs.RingRender V.Proofs.RingSeqRun
-               V.Proofs.C06OracleProofs V.Model.RingThreads V.Proofs.RingConc V.Proofs.RingConcThm.
+Require Import V.Base.MachineInt.
+Require Import V.Generated.GenConsts.
+Require Import V.Model.LogBase.
+Require Import V.Model.Ring.
+Require Import V.Spec.Fifo.
+Require Import V.Oracle.C06Oracle.
+Require Import V.Proofs.RingArith.
+Require Import V.Proofs.RingSeq.
+Require Import V.Proofs.RingRender.
+Require Import V.Proofs.RingSeqRun.
+Require Import V.Proofs.C06OracleProofs.
+Require Import V.Model.RingThreads.
+Require Import V.Proofs.RingConc.
+Require Import V.Proofs.RingConcThm.
 Open Scope Z_scope.
 
 (* ---------------------------------------------------------------------------------------------
